@@ -174,3 +174,14 @@ pub assume_specification[ BlsScalar::invert ](x: &BlsScalar) -> (r: Option<BlsSc
         cv(*x) == 0 ==> r.is_none(),
         cv(*x) != 0 ==> r.is_some() && (cv(*x) * cv(r.unwrap())) % R() == 1;
 }
+
+verus! {
+use vstd::arithmetic::power2::pow2;
+/// ASSUMED contract of `BlsScalar::to_bits` (dependency): the 256 little-endian bits of the canonical value
+pub assume_specification[ BlsScalar::to_bits ](x: &BlsScalar) -> (r: [u8; 256])
+    ensures forall|k: int| 0 <= k < 256 ==> (#[trigger] r@[k]) as int == (cv(*x) / (pow2(k as nat) as int)) % 2;
+
+/// ASSUMED contract of `BlsScalar::pow_of_2` (dependency): 2^by in the field
+pub assume_specification[ BlsScalar::pow_of_2 ](by: u64) -> (r: BlsScalar)
+    ensures cv(r) == (pow2(by as nat) as int) % R();
+}
